@@ -210,6 +210,7 @@ func cmdCheck(args []string) int {
 	exit := 0
 	inconclusive := []string{}
 	violations := 0
+	replays := 0
 	knownReported := []string{}
 	var samples []interface{}
 	evals, distinct, obligationsN, dischargedN := 0, 0, 0, 0
@@ -340,6 +341,7 @@ func cmdCheck(args []string) int {
 			seen[k] = true
 			rp := writeReplay(prop, o, f, res.Params)
 			status, detail := nativeReplay(rp, f.Kind)
+			replays++
 			if o.Info {
 				smp["informational_finding"] = f.Label + ": " + f.Msg
 				continue
@@ -393,6 +395,10 @@ func cmdCheck(args []string) int {
 		"property_id": prop, "tier": tier, "seed": seed, "level": "model_checking",
 		"wall_s": round1(wall), "violations": violations,
 		"coverage": map[string]interface{}{
+			"states":              paths,
+			"transitions":         nsat + paths,
+			"traces_validated_against_impl": replays,
+			"states_note":         "states = symbolic paths (each a set of concrete executions) explored to the end; transitions = solver-confirmed feasible branch alternatives + path ends; traces_validated_against_impl = solver counterexamples replayed natively against the real build in this run",
 			"evaluations":         evals,
 			"distinct_nontrivial": distinct,
 			"rule": "evaluations = SMT queries sent to the solver (path-feasibility and obligation queries) while symbolically executing the go/ssa of the real functions; " +
